@@ -8,7 +8,7 @@ pool) on the real ThreadPool under the controlled scheduler.
 from checks import _pool as P
 
 PROP = "C11"
-LIFE = ["P31-task-raises-SystemExit", "P32-SystemExit-then-restart", "P29-stop-while-busy-then-restart", "P30-stop-while-busy-restart-chain", "P5-between-stop-and-restart", "P6-stop-races-enqueue", "P10-stop-enq-start", "P13-untimed-join-after-stop-start",
+LIFE = ["P34-join-zero-timeout", "P31-task-raises-SystemExit", "P32-SystemExit-then-restart", "P29-stop-while-busy-then-restart", "P30-stop-while-busy-restart-chain", "P5-between-stop-and-restart", "P6-stop-races-enqueue", "P10-stop-enq-start", "P13-untimed-join-after-stop-start",
         "P14-join-while-gated-runs", "P15-double-start-stop", "P20-timed-join-with-gated", "P21-stop-with-join-racing",
         "P7-more-prequeued-than-workers", "P18-chain-after-restart", "P1-prequeued-then-start", "P12-bounded-queue"]
 
